@@ -505,6 +505,9 @@ func c03Gen(r *Rand, tier string, emit func(op any)) {
 			if (c.kind == "float64" || c.kind == "float32") && c.shape == "ks" && c03IsNaNBits(c.kind, *a.N) {
 				continue // separately built slices holding NaN are never DeepEqual: see F3b
 			}
+			if a.X != nil && !a.X.Refl && c.shape == "ks" {
+				continue // same for NaN-carrying complex elements
+			}
 			keep = append(keep, a)
 		}
 		fs := c03FSpec{C: name, Key: hx([]byte(Pick(r, []string{"k", "k", "k", "j", ""})))}
